@@ -97,6 +97,91 @@ func flattenPartial(r *Rng, t map[string]interface{}, p int) map[string]interfac
 	return out
 }
 
+// splitMix writes a subtree partly nested and partly as dotted keys (list indices included):
+// every leaf keeps its position, so the result denotes the same tree. With pnil, a sub-map
+// all of whose leaves moved to dotted keys may be left behind as an explicit nil.
+func splitMix(r *Rng, t map[string]interface{}) map[string]interface{} {
+	out := map[string]interface{}{}
+	var walk func(prefix string, v interface{}, nested map[string]interface{}, key string)
+	put := func(k string, v interface{}) { out[k] = v }
+	walk = func(prefix string, v interface{}, nested map[string]interface{}, key string) {
+		switch x := v.(type) {
+		case map[string]interface{}:
+			if len(x) == 0 || r.P(1, 3) {
+				nested[key] = v
+				return
+			}
+			sub := map[string]interface{}{}
+			for k, e := range x {
+				if r.Bool() {
+					walk(prefix+"."+k, e, sub, k)
+				} else {
+					flat(prefix+"."+k, e, put, r)
+				}
+			}
+			if len(sub) > 0 {
+				nested[key] = sub
+			} else if r.P(1, 2) {
+				nested[key] = nil
+			}
+		case []interface{}:
+			// a literal list that keeps every entry (so indices stay), while some leaves of its
+			// map entries are written as dotted keys with the index as a segment
+			if len(x) == 0 || r.P(1, 2) {
+				nested[key] = v
+				return
+			}
+			lst := make([]interface{}, len(x))
+			for i, e := range x {
+				if em, ok := e.(map[string]interface{}); ok && len(em) > 0 {
+					keep := map[string]interface{}{}
+					for k, ev := range em {
+						if r.Bool() {
+							keep[k] = ev
+						} else {
+							flat(fmt.Sprintf("%s.%d.%s", prefix, i, k), ev, put, r)
+						}
+					}
+					lst[i] = keep
+				} else {
+					lst[i] = e
+				}
+			}
+			nested[key] = lst
+		default:
+			nested[key] = v
+		}
+	}
+	for k, v := range t {
+		walk(k, v, out, k)
+	}
+	return out
+}
+
+// flat emits v under dotted keys starting at prefix (maps and, sometimes, lists are expanded)
+func flat(prefix string, v interface{}, put func(string, interface{}), r *Rng) {
+	switch x := v.(type) {
+	case map[string]interface{}:
+		if len(x) == 0 || r.P(1, 3) {
+			put(prefix, v)
+			return
+		}
+		for k, e := range x {
+			flat(prefix+"."+k, e, put, r)
+		}
+	case []interface{}:
+		if len(x) == 0 || r.P(1, 2) {
+			put(prefix, v)
+			return
+		}
+		for i, e := range x {
+			flat(fmt.Sprintf("%s.%d", prefix, i), e, put, r)
+		}
+	default:
+		put(prefix, v)
+	}
+}
+
 func kvsOf(m map[string]interface{}) string {
 	keys := make([]string, 0, len(m))
 	for k := range m {
@@ -164,10 +249,20 @@ func genC05(g *Gen, c09 bool) {
 			Desc: map[string]interface{}{"kind": "dup", "form": i, "input": descTree(m), "outcomes": descs},
 			Tags: []string{"dup", fmt.Sprintf("outcomes=%d", len(coqs))}, Nontrivial: true})
 	}
-	for i := 0; i < n/4; i++ {
+	nset := n / 4
+	if c09 {
+		nset = n
+	}
+	for i := 0; i < nset; i++ {
 		t := randMap(r, tc, 0)
+		if r.P(1, 3) {
+			t["l"] = []interface{}{map[string]interface{}{"x": randScalar(r), "y": randScalar(r)}, map[string]interface{}{"x": randScalar(r), "z": randTree(r, tc, 2)}}
+		}
 		o := normOpts{Sep: "."}
 		flat := flattenPartial(r, t, 4)
+		if r.Bool() {
+			flat = splitMix(r, t)
+		}
 		if len(flat) > 5 {
 			continue
 		}
@@ -248,10 +343,16 @@ func genC05(g *Gen, c09 bool) {
 		}
 	}
 	// (2) dotted keys are equivalent to nesting, in any mixture
-	for i := 0; i < n/2; i++ {
+	for i := 0; i < n; i++ {
 		t := randMap(r, tc, 0)
+		if r.P(1, 3) {
+			t["l"] = []interface{}{map[string]interface{}{"x": randScalar(r), "y": randScalar(r)}, map[string]interface{}{"x": randScalar(r), "z": randTree(r, tc, 2)}}
+		}
 		o := normOpts{Sep: "."}
 		flat := flattenPartial(r, t, 5)
+		if r.Bool() {
+			flat = splitMix(r, t)
+		}
 		g.Add(c05Norm(flat, o, descTree(flat), "flat"))
 		c1, d1, _ := newFromObs(t, o)
 		c2, d2, _ := newFromObs(flat, o)
